@@ -240,12 +240,32 @@ func poolRun(s *poolScn) *poolObs {
 		recv(4 * time.Second)
 		closeN()
 	}
-	if s.fault == "stall" && s.closeAt != "req" && s.closeAt != "start" && s.closeAt != "eos" {
-		// the body stalls until the request context is cancelled: only Close ends this client
-		if s.closeAt == "none" {
-			if wait(srv.stalled, "stalling request never made") {
-				time.Sleep(5 * time.Millisecond)
+	// Close from the user's goroutine once the server holds a request (close=held) / has handed out the stalling
+	// body (fault=stall: only Close ends that client). If the request index is never reached the client finishes
+	// on its own first.
+	var trigger chan struct{}
+	switch {
+	case s.closeAt == "held":
+		trigger = srv.held
+	case s.fault == "stall" && s.closeAt == "none":
+		trigger = srv.stalled
+	}
+	if trigger != nil && !have {
+		deadline := time.After(4 * time.Second)
+	waitTrigger:
+		for {
+			select {
+			case <-trigger:
+				time.Sleep(3 * time.Millisecond)
 				closeN()
+				break waitTrigger
+			case <-time.After(2 * time.Millisecond):
+				if len(cl.Wait()) > 0 { // the client has finished on its own; nothing is received here
+					break waitTrigger
+				}
+			case <-deadline:
+				obs.msg = "watchdog: trigger request never made"
+				break waitTrigger
 			}
 		}
 	}
